@@ -154,13 +154,39 @@ def all_paths(L):
     return out
 
 
-def roundtrip(L):
+def roundtrip(L, preloaded=False):
+    """preloaded: the exported file has already been loaded once in this process (as a directory, then by from_yaml), that layer was used and then EDITED in
+    place by its owner (relationships, metrics, dimensions, segments removed, table renamed) -- the load that is compared comes after all that"""
     from sidemantic import SemanticLayer
     d = tempfile.mkdtemp(prefix="c11_")
     try:
         p = os.path.join(d, "layer.yml")
         L.to_yaml(p)
         text = open(p).read()
+        if preloaded:
+            import logging
+            from sidemantic.loaders import load_from_directory
+            logging.disable(logging.CRITICAL)
+            try:
+                for mk in (lambda: load_from_directory(SemanticLayer(connection="duckdb:///:memory:", auto_register=False), d) or None, lambda: SemanticLayer.from_yaml(p, connection="duckdb:///:memory:")):
+                    try:
+                        E = mk()
+                    except Exception:
+                        continue
+                    if E is None:
+                        continue
+                    compile_all(E)
+                    for m in E.graph.models.values():
+                        for lst in (m.relationships, m.metrics, m.dimensions, m.segments, m.pre_aggregations):
+                            try:
+                                del lst[:]
+                            except Exception:
+                                pass
+                        m.table = "edited_away"
+                    for gm in list(E.graph.metrics.values()):
+                        gm.sql = "0"
+            finally:
+                logging.disable(logging.NOTSET)
         return SemanticLayer.from_yaml(p, connection="duckdb:///:memory:"), text
     finally:
         import shutil
@@ -315,7 +341,8 @@ def run(c):
         L = gen_graph(c.rng)
         stats["graphs"] += 1
         try:
-            L2, text = roundtrip(L)
+            L2, text = roundtrip(L, preloaded=(i % 2 == 1))
+            stats["preloaded_and_edited"] = stats.get("preloaded_and_edited", 0) + (i % 2 == 1)
         except Exception as e:
             stats["reload_failures"] += 1
             c.violation("the exported YAML cannot be loaded back: %s" % str(e)[:160].replace("\n", " "), {"kind": "reload", "index": i, "seed": c.seed, "error": str(e)[:600]})
